@@ -70,7 +70,7 @@ def vNames : List String :=
 def isFailure : Out → Bool
   | .stmt (.err _) => true
   | .noSession => true
-  | .conflict => true
+  | .refused _ => true
   | .batchErr _ => true
   | _ => false
 
@@ -171,7 +171,7 @@ def parseCycles (line : String) : Option Cycles :=
     else none
   | _ => none
 
-def catCycles : Catalog := [⟨"t", [⟨"k", .big, false, false⟩, ⟨"v", .int, false, false⟩]⟩]
+def catCycles : Catalog := [{ name := "t", cols := [⟨"k", .big, false, false⟩, ⟨"v", .int, false, false⟩] }]
 
 /-- rows k..hi as INSERT batches of 50 -/
 def insertBatches (n : Nat) : List Op :=
